@@ -4,6 +4,7 @@ import (
 	"fmt"
 	"go/ast"
 	"go/token"
+	"regexp"
 	"strings"
 )
 
@@ -224,6 +225,13 @@ end Generated.Order
 	}
 	if fd := c.Func("mcp", "streamableServerConn", "Read"); fd != nil && fd.Body != nil {
 		post["read_receives_from_incoming"] = strings.Contains(c.Src(fd.Body), "<-c.incoming")
+	}
+	// the session's intake channel: its capacity is what the generator's "body larger than the intake" threshold (12 = 1 read + 10 buffered + 1) is derived from
+	if fd := c.Func("mcp", "StreamableServerTransport", "Connect"); fd != nil && fd.Body != nil {
+		src := c.Src(fd.Body)
+		if m := regexp.MustCompile(`incoming:\s*make\(chan [^,()]+,\s*\d+\)`).FindString(src); m != "" {
+			post["intake_make"] = strings.Join(strings.Fields(m), " ")
+		}
 	}
 	c.Fact("order.streamable_post", post)
 
